@@ -41,6 +41,8 @@ type symEntry struct {
 	Members []string `json:"members,omitempty"`
 	Index   int      `json:"index,omitempty"` // field position
 	Shape   string   `json:"shape,omitempty"` // types only: the ordered field types of a struct
+	// MembersBy holds the member list under a configuration where it differs from Members (build-tagged variants)
+	MembersBy map[string][]string `json:"members_by,omitempty"`
 	Configs []string `json:"configs,omitempty"`
 }
 
@@ -219,6 +221,13 @@ func loadSymtab() (symTable, error) {
 	return t, nil
 }
 
+func membersFor(e *symEntry, cfg string) []string {
+	if m, ok := e.MembersBy[cfg]; ok {
+		return m
+	}
+	return e.Members
+}
+
 func hasCfg(e *symEntry, cfg string) bool {
 	for _, c := range e.Configs {
 		if c == cfg {
@@ -375,7 +384,7 @@ func detectRenames(ref symTable, cfg string, cur symTable, objs map[string]types
 			sc := 0.0
 			switch me.Kind {
 			case "func", "method":
-				sc = jaccard(me.Members, fe.Members)
+				sc = jaccard(membersFor(me, cfg), fe.Members)
 			case "field":
 				if fe.Index == me.Index {
 					sc = 1
@@ -395,7 +404,7 @@ func detectRenames(ref symTable, cfg string, cur symTable, objs map[string]types
 		if len(cands) > 1 && cands[0].score-cands[1].score < 0.2 {
 			continue // ambiguous
 		}
-		if (me.Kind == "func" || me.Kind == "method") && len(me.Members) > 3 && cands[0].score < 0.3 {
+		if (me.Kind == "func" || me.Kind == "method") && len(membersFor(me, cfg)) > 3 && cands[0].score < 0.3 {
 			continue // same type, different neighbourhood: a new function, not a rename
 		}
 		used[cands[0].key] = true
@@ -519,8 +528,15 @@ func writeSymtab(repo, path string) error {
 		tab, _ := collectSymbols(pkgs)
 		for k, e := range tab {
 			if m := merged[k]; m != nil {
-				// the default configuration's entry is kept; the others add their name
+				// the default configuration's entry is kept; the others add their name (and their members where a
+				// build-tagged variant of the symbol differs)
 				m.Configs = append(m.Configs, cfg.Name)
+				if strings.Join(m.Members, ",") != strings.Join(e.Members, ",") {
+					if m.MembersBy == nil {
+						m.MembersBy = map[string][]string{}
+					}
+					m.MembersBy[cfg.Name] = e.Members
+				}
 				continue
 			}
 			e.Configs = []string{cfg.Name}
